@@ -29,21 +29,21 @@ import XotModel.Lemmas.LineEnds
 namespace XotModel
 
 /-- The interning tables only grow at the end. -/
-structure EnvApp (e e' : Env) : Prop where
+structure SdEnvApp (e e' : Env) : Prop where
   pfx : ∃ x, e'.prefixes = e.prefixes ++ x
   ns : ∃ x, e'.namespaces = e.namespaces ++ x
   nm : ∃ x, e'.names = e.names ++ x
 
-theorem EnvApp.refl (e : Env) : EnvApp e e := ⟨⟨[], by simp⟩, ⟨[], by simp⟩, ⟨[], by simp⟩⟩
+theorem SdEnvApp.refl (e : Env) : SdEnvApp e e := ⟨⟨[], by simp⟩, ⟨[], by simp⟩, ⟨[], by simp⟩⟩
 
-theorem EnvApp.trans {a b c : Env} (h1 : EnvApp a b) (h2 : EnvApp b c) : EnvApp a c := by
+theorem SdEnvApp.trans {a b c : Env} (h1 : SdEnvApp a b) (h2 : SdEnvApp b c) : SdEnvApp a c := by
   obtain ⟨⟨x1, e1⟩, ⟨y1, f1⟩, ⟨z1, g1⟩⟩ := h1
   obtain ⟨⟨x2, e2⟩, ⟨y2, f2⟩, ⟨z2, g2⟩⟩ := h2
   exact ⟨⟨x1 ++ x2, by rw [e2, e1, List.append_assoc]⟩, ⟨y1 ++ y2, by rw [f2, f1, List.append_assoc]⟩,
     ⟨z1 ++ z2, by rw [g2, g1, List.append_assoc]⟩⟩
 
 /-- `(prefix id, namespace id)` of the namespace-node children, in document order. -/
-def declsOf (ks : List Tree) : List (Nat × Nat) :=
+def sdDeclsOf (ks : List Tree) : List (Nat × Nat) :=
   ks.filterMap fun k => match k.value with
     | .namespace p n => some (p, n)
     | _ => none
@@ -148,7 +148,7 @@ def PiFacts (ts : List Token) (g : SpanKey → Option Span) (env : Env) (path : 
 /-- The declarations in force inside a node: an element adds its own. -/
 def innerStack (v : Value) (ks : List Tree) (stack : NsStack) : NsStack :=
   match v with
-  | .element _ => declsOf ks :: stack
+  | .element _ => sdDeclsOf ks :: stack
   | _ => stack
 
 def NodeFacts (ts : List Token) (g : SpanKey → Option Span) (env : Env) (stack : NsStack) (path : Path)
@@ -180,7 +180,7 @@ def FrameDesc (ts : List Token) (g : SpanKey → Option Span) (env : Env) (stack
     (f : Frame) : Prop :=
   DescR ts g env stack path f.rkids ∧
   match f.value with
-  | .element id => StartFacts ts g env stack path id f.rkids ∧ stack.head? = some (declsOf f.rkids.reverse)
+  | .element id => StartFacts ts g env stack path id f.rkids ∧ stack.head? = some (sdDeclsOf f.rkids.reverse)
   | _ => stack = baseStack
 
 /-- The stack below a frame. -/
